@@ -62,6 +62,8 @@ type uStep struct {
 	Pli   bool     `json:"pli"`
 	Raw   []int    `json:"raw"` // raw bytes for malformed-input steps
 	Par   []uStep  `json:"par"` // steps to run concurrently (a == "par")
+	Rep   int      `json:"rep"` // repeat the step this many times (sequence numbers and ids advance)
+	Seq   []uStep  `json:"seq"` // a == "seq": run these steps in order (one role of a concurrent program)
 }
 
 type uScript struct {
@@ -571,6 +573,19 @@ func uRun(t *testing.T, sc *uScript, out *vfWriter, scribble, quiet bool) []vfM 
 	var rtcpR interceptor.RTCPReader
 	local := map[uint32]*uBound{}
 	remote := map[uint32]*uBound{}
+	var smu sync.Mutex // protects the harness's own tables when steps run concurrently
+	getLocal := func(s uint32) *uBound {
+		smu.Lock()
+		defer smu.Unlock()
+
+		return local[s]
+	}
+	getRemote := func(s uint32) *uBound {
+		smu.Lock()
+		defer smu.Unlock()
+
+		return remote[s]
+	}
 	aborted := false
 
 	var exec func(st *uStep) vfM
@@ -586,10 +601,15 @@ func uRun(t *testing.T, sc *uScript, out *vfWriter, scribble, quiet bool) []vfM 
 		var pan string
 		switch st.A {
 		case "bindw":
-			blocked, pan = uGuard(limit, func() { rtcpW = chain.BindRTCPWriter(e.wireRTCP()) })
+			blocked, pan = uGuard(limit, func() {
+				w := chain.BindRTCPWriter(e.wireRTCP())
+				smu.Lock()
+				rtcpW = w
+				smu.Unlock()
+			})
 		case "bindr":
 			blocked, pan = uGuard(limit, func() {
-				rtcpR = chain.BindRTCPReader(interceptor.RTCPReaderFunc(
+				rr := chain.BindRTCPReader(interceptor.RTCPReaderFunc(
 					func(b []byte, a interceptor.Attributes) (int, interceptor.Attributes, error) {
 						e.mu.Lock()
 						defer e.mu.Unlock()
@@ -599,12 +619,17 @@ func uRun(t *testing.T, sc *uScript, out *vfWriter, scribble, quiet bool) []vfM 
 
 						return copy(b, e.nextRC), a, nil
 					}))
+				smu.Lock()
+				rtcpR = rr
+				smu.Unlock()
 			})
 		case "bindl":
 			b := &uBound{info: uInfo(st)}
 			ev["twcc"], ev["rtx"], ev["fec"], ev["nack"] = st.Twcc, st.Rtx, st.Fec, st.Nack
 			blocked, pan = uGuard(limit, func() { b.writer = chain.BindLocalStream(b.info, e.wireRTP(st.S)) })
+			smu.Lock()
 			local[st.S] = b
+			smu.Unlock()
 		case "bindm":
 			b := &uBound{info: uInfo(st)}
 			ev["twcc"], ev["rtx"], ev["fec"], ev["nack"] = st.Twcc, st.Rtx, st.Fec, st.Nack
@@ -621,18 +646,24 @@ func uRun(t *testing.T, sc *uScript, out *vfWriter, scribble, quiet bool) []vfM 
 						return copy(buf, e.nextRTP[s]), a, nil
 					}))
 			})
+			smu.Lock()
 			remote[st.S] = b
+			smu.Unlock()
 		case "unbindl":
-			if b := local[st.S]; b != nil {
-				blocked, pan = uGuard(limit, func() { chain.UnbindLocalStream(b.info) })
+			if b := getLocal(st.S); b != nil {
+				smu.Lock()
 				delete(local, st.S)
+				smu.Unlock()
+				blocked, pan = uGuard(limit, func() { chain.UnbindLocalStream(b.info) })
 			} else {
 				ev["skipped"] = true
 			}
 		case "unbindm":
-			if b := remote[st.S]; b != nil {
-				blocked, pan = uGuard(limit, func() { chain.UnbindRemoteStream(b.info) })
+			if b := getRemote(st.S); b != nil {
+				smu.Lock()
 				delete(remote, st.S)
+				smu.Unlock()
+				blocked, pan = uGuard(limit, func() { chain.UnbindRemoteStream(b.info) })
 			} else {
 				ev["skipped"] = true
 			}
@@ -656,7 +687,7 @@ func uRun(t *testing.T, sc *uScript, out *vfWriter, scribble, quiet bool) []vfM 
 				ev["err"] = 2
 			}
 		case "wrtp":
-			b := local[st.S]
+			b := getLocal(st.S)
 			if b == nil || b.writer == nil {
 				ev["skipped"] = true
 
@@ -694,6 +725,9 @@ func uRun(t *testing.T, sc *uScript, out *vfWriter, scribble, quiet bool) []vfM 
 				}
 			}
 		case "wrtcp":
+			smu.Lock()
+			rtcpW := rtcpW
+			smu.Unlock()
 			if rtcpW == nil {
 				ev["skipped"] = true
 
@@ -728,7 +762,7 @@ func uRun(t *testing.T, sc *uScript, out *vfWriter, scribble, quiet bool) []vfM 
 			}
 			ev["n"], ev["err"], ev["wire"] = n, uErrClass(werr), w
 		case "rrtp":
-			b := remote[st.S]
+			b := getRemote(st.S)
 			if b == nil || b.reader == nil {
 				ev["skipped"] = true
 
@@ -754,7 +788,7 @@ func uRun(t *testing.T, sc *uScript, out *vfWriter, scribble, quiet bool) []vfM 
 			e.nextRTP[st.S], e.nextErr = rawb, st.Fail
 			e.mu.Unlock()
 			buf := make([]byte, 1500)
-			if e.scribble {
+			if e.scribble && e.quiet {
 				if e.readBuf == nil {
 					e.readBuf = make([]byte, 1500)
 				}
@@ -768,12 +802,15 @@ func uRun(t *testing.T, sc *uScript, out *vfWriter, scribble, quiet bool) []vfM 
 			e.mu.Unlock()
 			ev["n"], ev["err"], ev["len"] = n, uErrClass(rerr), len(rawb)
 			ev["same"] = n <= len(buf) && n >= 0 && bytes.Equal(buf[:min(n, len(buf))], rawb)
-			if e.scribble && !blocked {
+			if e.scribble && e.quiet && !blocked {
 				for i := range buf {
 					buf[i] = 0xEE
 				}
 			}
 		case "rrtcp":
+			smu.Lock()
+			rtcpR := rtcpR
+			smu.Unlock()
 			if rtcpR == nil {
 				ev["skipped"] = true
 
@@ -798,6 +835,24 @@ func uRun(t *testing.T, sc *uScript, out *vfWriter, scribble, quiet bool) []vfM 
 					p = &rtcp.SenderReport{SSRC: st.S, NTPTime: uint64(st.ID) << 32, RTPTime: 99, PacketCount: 3, OctetCount: 4} //nolint:gosec
 				case "rr":
 					p = &rtcp.ReceiverReport{SSRC: 7, Reports: []rtcp.ReceptionReport{{SSRC: st.S, LastSequenceNumber: uint32(st.W)}}}
+				case "ccfb":
+					p = &rtcp.CCFeedbackReport{SenderSSRC: 7, ReportTimestamp: 0x00050000, ReportBlocks: []rtcp.CCFeedbackReportBlock{{
+						MediaSSRC: st.S, BeginSequence: st.W, MetricBlocks: []rtcp.CCFeedbackMetricBlock{
+							{Received: true, ArrivalTimeOffset: 10}, {Received: false}, {Received: true, ArrivalTimeOffset: 3},
+						},
+					}}}
+				case "twccfb":
+					p = &rtcp.TransportLayerCC{
+						SenderSSRC: 7, MediaSSRC: st.S, BaseSequenceNumber: uint16(st.Tw), PacketStatusCount: 3, ReferenceTime: 5, //nolint:gosec
+						FbPktCount: uint8(st.ID), //nolint:gosec
+						PacketChunks: []rtcp.PacketStatusChunk{&rtcp.RunLengthChunk{
+							Type: rtcp.TypeTCCRunLengthChunk, PacketStatusSymbol: rtcp.TypeTCCPacketReceivedSmallDelta, RunLength: 3,
+						}},
+						RecvDeltas: []*rtcp.RecvDelta{
+							{Type: rtcp.TypeTCCPacketReceivedSmallDelta, Delta: 250}, {Type: rtcp.TypeTCCPacketReceivedSmallDelta, Delta: 500},
+							{Type: rtcp.TypeTCCPacketReceivedSmallDelta, Delta: 250},
+						},
+					}
 				default:
 					p = &rtcp.PictureLossIndication{SenderSSRC: 7, MediaSSRC: st.S}
 				}
@@ -817,6 +872,23 @@ func uRun(t *testing.T, sc *uScript, out *vfWriter, scribble, quiet bool) []vfM 
 			ev["same"] = n <= len(buf) && n >= 0 && bytes.Equal(buf[:min(n, len(buf))], rawb)
 		case "wait":
 			time.Sleep(time.Duration(st.Ms) * time.Millisecond)
+		case "seq":
+			for i := range st.Seq {
+				sub := st.Seq[i]
+				sub.W += st.W
+				sub.ID += st.ID
+				r := exec(&sub)
+				if r["blocked"] == true {
+					blocked = true
+					ev["stack"] = r["stack"]
+				}
+				if p, _ := r["panic"].(string); p != "" {
+					pan = p
+				}
+				if blocked || pan != "" {
+					break
+				}
+			}
 		case "par":
 			var wg sync.WaitGroup
 			res := make([]vfM, len(st.Par))
@@ -824,7 +896,22 @@ func uRun(t *testing.T, sc *uScript, out *vfWriter, scribble, quiet bool) []vfM 
 				wg.Add(1)
 				go func(i int) {
 					defer wg.Done()
-					res[i] = exec(&st.Par[i])
+					sub := st.Par[i]
+					n := sub.Rep
+					if n < 1 {
+						n = 1
+					}
+					for k := 0; k < n; k++ {
+						res[i] = exec(&sub)
+						if res[i]["blocked"] == true || res[i]["panic"] != "" {
+							break
+						}
+						sub.W++
+						sub.ID++
+						if sub.Tw >= 0 {
+							sub.Tw++
+						}
+					}
 				}(i)
 			}
 			wg.Wait()
